@@ -2,7 +2,9 @@ package core
 
 import (
 	"bytes"
+	"encoding/json"
 	"fmt"
+	"os"
 	"strings"
 	"testing"
 	"unicode/utf8"
@@ -284,4 +286,40 @@ func FuzzC01Serialize(f *testing.F) {
 			t.Fatalf("C01 signed-not-authentic: %s for content %q tag %q", s, content, tagval)
 		}
 	})
+}
+
+// TestC01ReferenceAgainstRealEvents validates the harness's own NIP-01
+// serializer against genuinely signed events shipped with the repository
+// (ids produced by real clients), and the code's Verify against them.
+func TestC01ReferenceAgainstRealEvents(t *testing.T) {
+	col := ev.For("C01")
+	files := []string{"/repo/testdata/events_valid.jsonl", "/repo/testdata/clienteventmsgs_valid.jsonl", "/repo/testdata/servereventmsgs_valid.jsonl"}
+	n := 0
+	for _, fn := range files {
+		b, err := os.ReadFile(fn)
+		if err != nil {
+			continue
+		}
+		for _, line := range strings.Split(string(b), "\n") {
+			i := strings.Index(line, `{"id"`)
+			if i < 0 {
+				continue
+			}
+			j := strings.LastIndex(line, "}")
+			var e mocrelay.Event
+			if err := json.Unmarshal([]byte(line[i:j+1]), &e); err != nil {
+				continue
+			}
+			realID := gen.ComputeID(&e) == e.ID
+			ok, _ := authentic(&e)
+			if realID != ok && realID {
+				hx.Fail(t, ev.Failure{Property: "C01", Signature: "signed-not-authentic", Clause: "a real-world signed event from the repository's corpus is authentic", Case: e, Observed: fmt.Sprint(ok), Expected: "true"})
+			}
+			if realID {
+				n++
+				col.Case(false, e.ID, nil)
+			}
+		}
+	}
+	col.Add("real_world_events_with_matching_reference_id", int64(n))
 }
